@@ -82,6 +82,35 @@ fn check_views<G: CurveTag>(
                     if st != est {
                         return Some(format!("step_by({}) does not list every {}-th item", k + 1, k + 1));
                     }
+                    // partly consumed, then finished by the folding consumers
+                    {
+                        let mut it3 = mk();
+                        let _ = it3.nth(k);
+                        let rest = exp.len().saturating_sub(k + 1);
+                        if it3.count() != rest {
+                            return Some(format!("count() after nth({}) is not {}", k, rest));
+                        }
+                        let mut it4 = mk();
+                        let _ = it4.next();
+                        let mut seen: Vec<G> = vec![];
+                        it4.for_each(|p| seen.push(*p));
+                        if seen[..] != exp[1.min(len)..] {
+                            return Some("for_each after one next() does not visit the remaining items".to_string());
+                        }
+                        let mut it5 = mk().skip(k);
+                        let _ = it5.next();
+                        let l = it5.last().copied();
+                        let want = if k + 1 < len { exp.last().copied() } else { None };
+                        if l != want {
+                            return Some(format!("last() after skip({}) and one next() is not the final item", k));
+                        }
+                        let mut it6 = mk();
+                        let _ = it6.nth(k);
+                        let folded = it6.fold(0usize, |a, _| a + 1);
+                        if folded != rest {
+                            return Some(format!("fold after nth({}) visits {} items instead of {}", k, folded, rest));
+                        }
+                    }
                     // nth twice: positions k and 2k+1
                     let mut it2 = mk();
                     let _ = it2.nth(k);
@@ -293,6 +322,24 @@ fn static_checks<G: CurveTag>(col: &mut Collector, count: usize, beyond_u16: boo
             }
         }
         col.class("deep-chain(>2^17)");
+    }
+    // one call that makes more than 2^20 generators over a party count that is not a multiple of 8
+    // (thorough tier, one curve): any internal partitioning of the work must not show
+    if count > 64 && G::CURVE == Curve::Secq {
+        let (pn, pm) = (17usize, 65_601usize);
+        let big = BulletproofGens::<G>::new(pn, pm);
+        let bg: Vec<G> = big.G(pn, pm).cloned().collect();
+        let bh: Vec<G> = big.H(pn, pm).cloned().collect();
+        for j in (0..pm).filter(|j| *j < 40 || *j % 997 == 0 || (8190..8215).contains(j) || *j >= pm - 40) {
+            col.eval();
+            let eg = refgens::gens_uncached::<G>(b'G', j as u32, pn);
+            let eh = refgens::gens_uncached::<G>(b'H', j as u32, pn);
+            if bg[j * pn..(j + 1) * pn] != eg[..] || bh[j * pn..(j + 1) * pn] != eh[..] {
+                out.push(Failure::new("C12:many-parties-value", format!("new({}, {}): generators of party {} differ from the history-free derivation", pn, pm, j), what(&format!("party {}", j))));
+                break;
+            }
+        }
+        col.class("more-than-2^20-generators-in-one-call");
     }
     // Pedersen bases as documented
     let (b, bb) = refgens::pedersen::<G>();
